@@ -177,6 +177,7 @@ func rulesC08(w *World, r *Report) {
 		ruleLoopGoesOn(w, r, "C08.R7", "CopyCommand.execute:every-file", firstLoopCall(ex, cp), "with a glob pattern every matched file is copied")
 		ruleDestPathDefault(w, r, "C08.R7", ex, cp)
 		ruleGlobArgs(w, r, "C08.R7", ex, fn(w.Cmd, "globFiles"), "SrcRelPath")
+		ruleGlobRel(w, r, "C08.R7")
 	}
 	ruleC08R8(w, r, a)
 	{
@@ -243,6 +244,7 @@ func rulesC09(w *World, r *Report) {
 		ruleLoopGoesOn(w, r, "C09.R3", "DiffCommand.execute:every-file", firstLoopCall(ex, dof), "with a glob pattern every matched file is compared, also after a difference was found")
 		ruleDestPathDefault(w, r, "C09.R3", ex, dof)
 		ruleGlobArgs(w, r, "C09.R3", ex, fn(w.Cmd, "globFiles"), "SrcRelPath")
+		ruleGlobRel(w, r, "C09.R3")
 		for _, c := range callsTo(ex, dof) {
 			if inLoopWith(c.Block()) {
 				r.Check(sameLeaves(c.Common().Args[1], c.Common().Args[2]), "C09.R3", "DiffCommand.execute:glob-same-path", w.instrPos(c), "same relative path on both sides", "glob mode compares a matched file with a different relative path")
@@ -1332,6 +1334,9 @@ var _ = sort.Strings
 
 // ruleWriterWritesAll: archiveUpdateMany's write loop has no extra guards (shared with C06.R6).
 func ruleWriterWritesAll(w *World, r *Report, rule string) {
+	if strings.HasPrefix(rule, "C08.") || strings.HasPrefix(rule, "C11.") {
+		ruleWriteOrderFinestFirst(w, r, rule)
+	}
 	au := fn(w.Lib, "Whisper.archiveUpdateMany")
 	put := fn(w.Lib, "Whisper.putPointAt")
 	if au == nil || put == nil {
@@ -1346,6 +1351,65 @@ func ruleWriterWritesAll(w *World, r *Report, rule string) {
 	}
 	if n == 0 {
 		r.Violate(rule, "archiveUpdateMany:writes-every-point", w.pos(au.Pos()), "archiveUpdateMany writes nothing")
+	}
+	// the point handed to putPointAt is the aligned point itself, and putPointAt encodes the point it is handed:
+	// no value-dependent replacement on the way (a NaN "stored as an empty slot" wipes the base interval when it
+	// lands on the archive's first slot)
+	for _, c := range callsTo(au, put) {
+		bad := ""
+		for _, l := range leavesOf(c.Common().Args[1]) {
+			s := newExprCtx(w).expr(l)
+			if !strings.Contains(s, "alignPoints(") {
+				bad = s
+			}
+		}
+		// a local copy of the element that is overwritten on some path (p = Point{}) — zero stores are not
+		// origins for leavesOf, so they are looked for here
+		if u, ok := c.Common().Args[1].(*ssa.UnOp); ok {
+			if al, ok := u.X.(*ssa.Alloc); ok {
+				for _, st := range storesTo(al) {
+					if !strings.Contains(newExprCtx(w).expr(st.Val), "alignPoints(") {
+						bad = newExprCtx(w).expr(st.Val)
+					}
+				}
+			}
+		}
+		r.Check(bad == "", rule, "archiveUpdateMany:writes-aligned-point", w.instrPos(c), "the point written is an element of alignPoints(batch)", "archiveUpdateMany writes "+shortExpr(bad)+" in place of an aligned point of the batch: the value stored depends on something other than the point given")
+	}
+	{
+		bad := ""
+		var enc *ssa.Call
+		for _, c := range callsTo(put, fn(w.Lib, "Point.AppendTo")) {
+			enc = c
+		}
+		if enc == nil {
+			bad = "does not encode a point with Point.AppendTo"
+		} else {
+			recv := enc.Common().Args[0]
+			if u, ok := recv.(*ssa.UnOp); ok {
+				recv = u.X
+			}
+			switch x := recv.(type) {
+			case *ssa.Alloc:
+				nSt := 0
+				for _, st := range storesTo(x) {
+					nSt++
+					if st.Val != ssa.Value(put.Params[1]) {
+						bad = "encodes " + newExprCtx(w).expr(st.Val) + " instead of the point it was given"
+					}
+				}
+				if nSt != 1 && bad == "" {
+					bad = "replaces the point it was given on some path before encoding it"
+				}
+			case *ssa.Parameter:
+				if x != put.Params[1] {
+					bad = "encodes something other than the point it was given"
+				}
+			default:
+				bad = "encodes " + newExprCtx(w).expr(recv) + " instead of the point it was given"
+			}
+		}
+		r.Check(bad == "", rule, "putPointAt:writes-its-point", w.pos(put.Pos()), "putPointAt encodes exactly the point it is given", "putPointAt "+bad+": what reaches the file is not what the writer was asked to store (a NaN turned into an empty point clears the slot's time — on slot 0 that is the archive's base interval)")
 	}
 	// what is aligned and written is the batch it was handed, unfiltered
 	for _, c := range callsTo(au, fn(w.Lib, "ArchiveInfo.alignPoints")) {
